@@ -246,6 +246,29 @@ func (e *Engine) callFunction(st *State, fr *Frame, res ssa.Value, callee *ssa.F
 		e.bind(fr, res, e.ufResults(st, "text$"+shortFn(callee), callee.Signature, args[:1]))
 		return false
 	}
+	if callee.Pkg != nil && e.isGhostRecursive(callee) {
+		// a recursive specification function: an uninterpreted function symbol plus, at every
+		// call, one unfolding of its definition at the call's arguments (nested recursive calls of
+		// that unfolding stay folded). Totality of the definition is assumed.
+		cargs := args[:len(callee.Params)]
+		rs := e.ufResults(st, "rec$"+shortFn(callee), callee.Signature, cargs)
+		if !e.unfolding[callee] {
+			e.unfolding[callee] = true
+			savedMode := e.Mode
+			body := e.evalSpecFnVal(st, callee, cargs)
+			e.Mode = savedMode
+			e.unfolding[callee] = false
+			var flat Val
+			for _, r := range rs {
+				flat = append(flat, r...)
+			}
+			for k := range flat {
+				e.fact(st, Eq(flat[k], body[k]))
+			}
+		}
+		e.bind(fr, res, rs)
+		return false
+	}
 	if callee.Pkg != nil && e.isUninterp(callee) {
 		e.bind(fr, res, e.ufResults(st, "spec$"+shortFn(callee), callee.Signature, args[:len(callee.Params)]))
 		return false
@@ -829,6 +852,27 @@ func (e *Engine) quantifier(st *State, fr *Frame, kind string, args []Val) *Term
 }
 
 var trace = os.Getenv("GOVC_TRACE") != ""
+
+// isGhostRecursive: a function of the generated specification file that calls itself.
+func (e *Engine) isGhostRecursive(fn *ssa.Function) bool {
+	if v, ok := e.ghostRec[fn]; ok {
+		return v
+	}
+	r := false
+	if len(fn.Blocks) > 0 && strings.HasSuffix(e.W.Fset.Position(fn.Pos()).Filename, "zz_verif_gen.go") {
+		for _, b := range fn.Blocks {
+			for _, ins := range b.Instrs {
+				if c, ok := ins.(*ssa.Call); ok {
+					if f, ok := c.Call.Value.(*ssa.Function); ok && f == fn {
+						r = true
+					}
+				}
+			}
+		}
+	}
+	e.ghostRec[fn] = r
+	return r
+}
 
 func (e *Engine) isUninterp(fn *ssa.Function) bool {
 	for _, pc := range e.W.Contracts {
